@@ -104,6 +104,45 @@ def validate (P : Prim F) : List (Node F) → Bool
   | [] => true
   | n :: ns => validateNode P n && validate P ns
 
+/-! ### The two numeric primitives as formulas over an abstract arithmetic
+
+`Arith F` is the arithmetic the formulas are written in; the driver instantiates it with `Float`
+(IEEE operations, compared with the real code on every run), the theorems of `Props/C16.lean`
+with the operations of an arbitrary ordered field — ONE definition serves both. -/
+
+structure Arith (F : Type) where
+  sub : F → F → F
+  add : F → F → F
+  mul : F → F → F
+  div : F → F → F
+  abs : F → F
+  le : F → F → Bool
+
+/-- a unit of the table: factor to the base and a key for its dimension -/
+structure LinUnit (F D : Type) where
+  k : F
+  dims : D
+
+/-- `np.isclose(a, b, rtol=rtol, atol=atol)`: `|a − b| ≤ atol + rtol·|b|` (`NumberType.__eq__`) -/
+def iscloseA (A : Arith F) (atol rtol a b : F) : Bool :=
+  A.le (A.abs (A.sub a b)) (A.add atol (A.mul rtol (A.abs b)))
+
+/-- `NumberType.convert`: nothing without both units or for the same symbol, `v · k_src / k_dst`
+    inside one dimension, an error across dimensions or for an unknown symbol -/
+def convA {D : Type} [DecidableEq D] (A : Arith F) (tbl : String → Option (LinUnit F D)) :
+    Option String → Option String → F → Option F
+  | some s, some d, v =>
+    if s = d then some v else
+    match tbl s, tbl d with
+    | some x, some y => if x.dims = y.dims then some (A.div (A.mul v x.k) y.k) else none
+    | _, _ => none
+  | _, _, v => some v
+
+/-- the primitives of the validation loop over an arithmetic and a unit table -/
+def arithPrim {D : Type} [DecidableEq D] (A : Arith F) (tbl : String → Option (LinUnit F D))
+    (atol rtol : F) : Prim F :=
+  ⟨convA A tbl, iscloseA A atol rtol⟩
+
 /-! ### Specification -/
 
 /-- a value equals an option "after conversion to the node's unit" -/
